@@ -18,6 +18,7 @@ package signing_proposal_fsm
 //@ spec func signingViewsSame(m *SigningProposalFSM) bool = unchanged(internal.SigningProposalParticipant.Status, internal.SigningProposalParticipant.UpdatedAt, internal.SigningProposalParticipant.Error, internal.SigningProposalParticipant.Username, internal.SigningProposalParticipant.ParticipantID, "*internal.SigningConfirmation", "*internal.SignatureConfirmation", "*internal.DumpedMachineStatePayload", "map[int]*internal.SigningProposalParticipant", "map[string][]byte", "[]byte") && (forall q *internal.SigningProposalParticipant :: !fresh(q) ==> q.PartialSigns == old(q.PartialSigns) || (old(q.PartialSigns) == nil && len(q.PartialSigns) == 0))
 
 //@ func (*SigningProposalFSM).actionPartialSignConfirmationReceived
+//@   ensures[C19.payload.same] m.payload == old(m.payload)
 //@   safety C18
 //@   requires wfSigning(m) && injSgn(sgnQ(m.payload))
 //@   ensures[C06.count] err == nil ==> sgnCnt(m.payload, internal.SigningPartialSignsConfirmed) == old(sgnCnt(m.payload, internal.SigningPartialSignsConfirmed)) + 1 && sgnCnt(m.payload, internal.SigningError) == old(sgnCnt(m.payload, internal.SigningError)) && len(sgnQ(m.payload)) == old(len(sgnQ(m.payload)))
@@ -41,6 +42,7 @@ package signing_proposal_fsm
 //@   loop 0 invariant forall i int :: 0 <= i && i <= $i ==> (psReq(args).PartialSigns[i].MessageID in signingProposalParticipant.PartialSigns)
 
 //@ func (*SigningProposalFSM).actionConfirmationError
+//@   ensures[C19.payload.same] m.payload == old(m.payload)
 //@   safety C18
 //@   requires wfSigning(m) && injSgn(sgnQ(m.payload))
 //@   ensures[C06.count] err == nil ==> sgnCnt(m.payload, internal.SigningError) == old(sgnCnt(m.payload, internal.SigningError)) + 1 && sgnCnt(m.payload, internal.SigningPartialSignsConfirmed) == old(sgnCnt(m.payload, internal.SigningPartialSignsConfirmed)) && len(sgnQ(m.payload)) == old(len(sgnQ(m.payload)))
@@ -55,6 +57,7 @@ package signing_proposal_fsm
 //@   ensures[C06.nodeadline,C07.nodeadline] sp(m).ExpiresAt == old(sp(m).ExpiresAt) && sp(m).UpdatedAt == old(sp(m).UpdatedAt)
 
 //@ func (*SigningProposalFSM).actionSigningRestart
+//@   ensures[C19.payload.same] m.payload == old(m.payload)
 //@   safety C18
 //@   pure
 //@   ensures[C06.restart] err == nil && outEvent == "" && response == nil
@@ -67,6 +70,7 @@ package signing_proposal_fsm
 //@ spec func sgnConfirmed(m *SigningProposalFSM) int = sgnCnt(m.payload, internal.SigningPartialSignsConfirmed)
 
 //@ func (*SigningProposalFSM).actionValidateSigningPartialSignsAwaitConfirmations
+//@   ensures[C19.payload.same] m.payload == old(m.payload)
 //@   safety C18
 //@   requires wfSigning(m) && injSgn(sgnQ(m.payload)) && sgnQ(m.payload) != nil
 //@   ensures[C06.noerr] err == nil
@@ -87,6 +91,7 @@ package signing_proposal_fsm
 
 // entering the signing stage: an empty signing round whose deadline is fixed once
 //@ func (*SigningProposalFSM).actionInitSigningProposal
+//@   ensures[C19.payload.same] m.payload == old(m.payload)
 //@   safety C18
 //@   requires m != nil && m.payload != nil
 //@   ensures[C05.reject,C06.reject,C18.reject] err != nil ==> unchanged("*internal.DumpedMachineStatePayload", "*internal.SigningConfirmation")
@@ -98,6 +103,7 @@ package signing_proposal_fsm
 
 // a signing proposal: every DKG participant gets a fresh awaiting record, the batch id and tasks are those of the proposal
 //@ func (*SigningProposalFSM).actionStartSigningProposal
+//@   ensures[C19.payload.same] m.payload == old(m.payload)
 //@   safety C18
 //@   requires m != nil && m.payload != nil && m.payload.SigningProposalPayload != nil && wfDkgQ(m.payload) && injDkg(dkgQ(m.payload))
 //@   ensures[C05.reject,C06.reject,C18.reject] err != nil ==> unchanged("*internal.DumpedMachineStatePayload", "*internal.SigningConfirmation", "*internal.SigningProposalParticipant", "map[int]*internal.SigningProposalParticipant")
